@@ -37,8 +37,14 @@ def render(shape):
     inner_abs = [f"  abstract interface\n    subroutine ai{k}(x)\n      !! abstract interface {k}\n      integer :: x\n    end subroutine ai{k}\n  end interface\n"
                  for k in range(shape["absint"])]
     inner_nl = [f"  integer :: nv{k}\n  namelist /nl{k}/ nv{k}\n" for k in range(shape["namelists"])]
-    type_impl = [f"  subroutine bp{k}(self)\n    class(ty{k}) :: self\n    call hs0(self%comp{k})\n  end subroutine bp{k}\n" for k in range(shape["types"])]
+    # binding targets: documented in two paragraphs (FORD then writes a summary with a "Read more" link) and, in a module,
+    # PRIVATE: under the default display they have no page of their own and are shown inline with the binding
+    type_impl = [f"  subroutine bp{k}(self)\n    !! binding target {k}\n    !!\n    !! second paragraph about binding target {k}\n"
+                 f"    class(ty{k}) :: self\n      !! the object\n      !!\n      !! second paragraph about the object\n"
+                 f"    call hs0(self%comp{k})\n  end subroutine bp{k}\n" for k in range(shape["types"])]
     host_is_module = shape["modules"] > 0
+    if host_is_module and shape["types"]:
+        inner_nl = [f"  private :: " + ", ".join(f"bp{k}" for k in range(shape["types"])) + "\n"] + inner_nl
     for k in range(shape["modules"]):
         spec = "".join(inner_types + inner_abs + inner_nl) if k == 0 else ""
         sub_iface = "".join(f"  interface\n    module subroutine ms{j}(a)\n      integer :: a\n    end subroutine ms{j}\n  end interface\n"
@@ -47,8 +53,8 @@ def render(shape):
             sub_iface += "  interface gen0\n    !! generic interface\n    module procedure hs0\n  end interface gen0\n"
         use = f"  use mo{k - 1}\n" if k > 0 else ""
         impl = "".join(type_impl) if k == 0 else ""
-        units.append(f"module mo{k}\n  !! module {k} see [[mo0]]\n{use}  implicit none\n  integer :: mv{k} = 1 !! variable\n{spec}{sub_iface}contains\n"
-                     f"  subroutine hs{k}(a)\n    !! module procedure {k}\n    integer :: a\n  end subroutine hs{k}\n{impl}end module mo{k}\n")
+        units.append(f"module mo{k}\n  !! module {k} see [[mo0]]\n{use}  implicit none\n  integer :: mv{k} = 1\n    !! variable\n    !!\n    !! second paragraph about the variable\n{spec}{sub_iface}contains\n"
+                     f"  subroutine hs{k}(a)\n    !! module procedure {k}\n    !!\n    !! second paragraph about module procedure {k}\n    integer :: a\n      !! argument\n      !!\n      !! second paragraph about the argument\n  end subroutine hs{k}\n{impl}end module mo{k}\n")
     for j in range(shape["submodules"]):
         units.append(f"submodule (mo0) sm{j}\n  !! submodule {j}\ncontains\n  module subroutine ms{j}(a)\n    integer :: a\n    call hs0(a)\n  end subroutine ms{j}\nend submodule sm{j}\n")
     for k in range(shape["programs"]):
@@ -82,6 +88,8 @@ OPTSETS = [
     {"page_dir": "./pages", "search": True},
     {"graph": True, "page_dir": "./pages", "sort": "type-alpha", "source": True},
     {"graph": True, "graph_maxnodes": 2, "graph_maxdepth": 2},      # small limit: graphs fall back to the table form
+    {"page_dir": "./pages", "search": True, "_via_symlink": True},   # the project is reached through a symbolic link (ford /link/proj/proj.md)
+    {"graph": True, "_via_symlink": True},
 ]
 
 PAGES = {"pages/index.md": "---\ntitle: Notes\n---\n\nSee [[mo0]] and [sub](sub/index.html) and |url|/index.html\n",
@@ -95,11 +103,16 @@ def evaluate(case):
     meta = {"incl_src": shape["incl_src"], "max_frontpage_items": 10 if shape["front_items"] else 0}
     if shape["extra"]:
         meta["extra_filetypes"] = "sh #"
-    meta.update(opts)
+    meta.update({k: v for k, v in opts.items() if not k.startswith("_")})
     if "page_dir" in opts:
         files = dict(files, **PAGES)
     problems = []
-    with fordrun.tempdir() as d:
+    with fordrun.tempdir() as d0:
+        d = d0
+        if opts.get("_via_symlink"):
+            os.makedirs(os.path.join(d0, "real", "proj"))
+            os.symlink("real", os.path.join(d0, "work"))
+            d = os.path.join(d0, "work", "proj")
         fordrun.write_files(d, files)
         ok, out, err = site.run_inproc(d, meta, body="Front page text with a link to [[mo0]] and [[pr0]].")
         if not ok:
@@ -109,7 +122,7 @@ def evaluate(case):
         problems += site.link_problems(outdir)
         problems += search_problems(outdir)
         # relocate and crawl again (catches links that only work in place)
-        moved = os.path.join(d, "elsewhere", "site")
+        moved = os.path.join(d0, "elsewhere", "site")
         os.makedirs(os.path.dirname(moved))
         shutil.move(outdir, moved)
         for p in site.link_problems(moved):
